@@ -20,6 +20,10 @@ class Fn:
             if e.id in env: return env[e.id]
             if e.id in self.cfg.get('params', {}): return e.id
             raise Untranslatable('unknown name %s' % e.id)
+        if isinstance(e, ast.Constant) and e.value is None: return 'None'
+        if isinstance(e, ast.Tuple): return '(' + ', '.join(self.expr(x, env) for x in e.elts) + ')'
+        if isinstance(e, ast.Subscript) and isinstance(e.slice, ast.Slice) and e.slice.upper is None and e.slice.step is None and isinstance(e.slice.lower, ast.Name) and self.cfg['types'].get(e.slice.lower.id)=='int':
+            return '(skipn %s %s)' % (self.expr(e.slice.lower, env), self.expr(e.value, env))
         if isinstance(e, ast.Constant):
             if isinstance(e.value, bool): return 'true' if e.value else 'false'
             if isinstance(e.value, str): return strlit(e.value)
@@ -37,6 +41,9 @@ class Fn:
                 return '(has_at %d %s)' % (k, env['scan']['rest'])
             if isinstance(op, ast.Gt) and isinstance(l, ast.Name) and self.cfg['types'].get(l.id)=='int' and isinstance(r, ast.Constant) and isinstance(r.value, int):
                 return '(%d <? %s)' % (r.value, self.expr(l, env))
+            if isinstance(op, (ast.Eq, ast.NotEq)) and ((isinstance(l, ast.Name) and self.cfg['types'].get(l.id)=='int') or (isinstance(r, ast.Name) and self.cfg['types'].get(r.id)=='int')):
+                eq = '(Nat.eqb %s %s)' % (self.expr(l, env), self.expr(r, env))
+                return eq if isinstance(op, ast.Eq) else '(negb %s)' % eq
             if isinstance(op, (ast.Eq, ast.NotEq)):
                 le, re_ = self.expr(l, env), self.expr(r, env)
                 if self.is_char(l, env) or self.is_char(r, env):
@@ -122,6 +129,7 @@ class Fn:
         if isinstance(s, ast.While) and 'while' in env: return env['while'](s, env, lambda e2: self.stmts(rest, e2, k))
         if isinstance(s, ast.For) and 'for' in env: return env['for'](s, env, lambda e2: self.stmts(rest, e2, k))
         if isinstance(s, ast.Continue): return env['continue'](env)
+        if isinstance(s, ast.Break) and 'break' in env: return env['break'](env)
         if isinstance(s, ast.Raise):
             self.raise_sites += 1
             return 'Err %d' % self.site(s)
@@ -170,7 +178,7 @@ def gen_escape(path):
     return out
 
 
-def gen_fold(path, name, params, types, ctors, regexes, state, ret_ty, coqtypes):
+def gen_fold(path, name, params, types, ctors, regexes, state, ret_ty, coqtypes, ret_some=False):
     """idiom A: prelude; nested defs with nonlocal; `for ch in <param>:` over a state tuple; postlude"""
     f = Fn(path, name, {'params': params, 'types': types, 'ctors': ctors, 'regexes': regexes, 'coqtypes': coqtypes})
     closures = {}
@@ -179,7 +187,7 @@ def gen_fold(path, name, params, types, ctors, regexes, state, ret_ty, coqtypes)
             if st.args.args or any(not isinstance(x, (ast.Nonlocal, ast.Assign, ast.If, ast.Expr, ast.Raise)) for x in st.body):
                 raise Untranslatable('closure shape ' + st.name)
             closures[st.name] = (lambda body: (lambda env, k2: f.stmts(body, env, k2)))(st.body)
-    tup = lambda env: '(' + ', '.join(env[v] for v in state) + ')'
+    tup = lambda env: env[state[0]] if len(state) == 1 else '(' + ', '.join(env[v] for v in state) + ')'
     pieces = {}
     def do_for(node, env, k_after):
         if not (isinstance(node.target, ast.Name) and isinstance(node.iter, ast.Name) and node.iter.id in params and not node.orelse):
@@ -189,19 +197,31 @@ def gen_fold(path, name, params, types, ctors, regexes, state, ret_ty, coqtypes)
         env_in = dict(env); 
         for v in state: env_in[v] = v
         env_in[chv] = chv
-        env_in['continue'] = lambda e: 'Ok ' + tup(e)
+        has_break = any(isinstance(x, ast.Break) for x in ast.walk(node))
+        pieces['break'] = has_break
+        nxt = (lambda e: 'Ok (true, %s)' % tup(e)) if has_break else (lambda e: 'Ok ' + tup(e))
+        env_in['continue'] = nxt
+        if has_break: env_in['break'] = lambda e: 'Ok (false, %s)' % tup(e)
         env_in.pop('for', None)
-        pieces['step'] = f.stmts(node.body, env_in, lambda e: 'Ok ' + tup(e))
+        pieces['step'] = f.stmts(node.body, env_in, nxt)
         env_out = dict(env)
         for v in state: env_out[v] = v + "'"
-        return ('(match %s_loop %s %s with\n | Err e => Err e\n | Ok st => let \'(%s) := st in\n%s end)'
-                % (name, tup(env), node.iter.id, ', '.join(v + "'" for v in state), k_after(env_out)))
-    env = {'closures': closures, 'for': do_for, 'return': lambda e: 'Ok ' + e}
+        tup1 = lambda env: env[state[0]] if len(state) == 1 else tup(env)
+        pat_out = (state[0] + "'") if len(state) == 1 else "'(%s)" % ', '.join(v + "'" for v in state)
+        return ('(match %s_loop %s %s with\n | Err e => Err e\n | Ok st => let %s := st in\n%s end)'
+                % (name, tup1(env), node.iter.id, pat_out, k_after(env_out)))
+    env = {'closures': closures, 'for': do_for, 'return': (lambda e: 'Ok ' + (e if e == 'None' or not ret_some else '(Some %s)' % e))}
     body = f.stmts(f.fn.body, env, lambda e: (_ for _ in ()).throw(Untranslatable('falls off the end')))
     st_ty = 'STATE_' + name
-    out  = 'Definition %s_step (st : %s) (%s : ascii) : res %s :=\n  let \'(%s) := st in\n%s.\n' % (name, st_ty, 'ch', st_ty, ', '.join(state), pieces['step'])
-    out += ('Fixpoint %s_loop (st : %s) (s : str) : res %s :=\n  match s with [] => Ok st | ch :: r => match %s_step st ch with Ok st\' => %s_loop st\' r | Err e => Err e end end.\n'
-            % (name, st_ty, st_ty, name, name))
+    pat = (lambda vs: vs[0] if len(vs) == 1 else "'(%s)" % ', '.join(vs))(state)
+    step_ty = ('(bool * %s)' % st_ty) if pieces['break'] else st_ty
+    out  = 'Definition %s_step (st : %s) (%s : ascii) : res %s :=\n  let %s := st in\n%s.\n' % (name, st_ty, 'ch', step_ty, pat, pieces['step'])
+    if pieces['break']:
+        out += ('Fixpoint %s_loop (st : %s) (s : str) : res %s :=\n  match s with [] => Ok st | ch :: r => match %s_step st ch with Ok (true, st\') => %s_loop st\' r | Ok (false, st\') => Ok st\' | Err e => Err e end end.\n'
+                % (name, st_ty, st_ty, name, name))
+    else:
+        out += ('Fixpoint %s_loop (st : %s) (s : str) : res %s :=\n  match s with [] => Ok st | ch :: r => match %s_step st ch with Ok st\' => %s_loop st\' r | Err e => Err e end end.\n'
+                % (name, st_ty, st_ty, name, name))
     out += 'Definition %s %s : res %s :=\n%s.\n' % (name, ' '.join('(%s : %s)' % (p, t) for p, t in params.items()), ret_ty, body)
     return out, f.raise_sites
 
@@ -280,6 +300,12 @@ if __name__=='__main__':
                    ctors={'_NPathSegment': ['name','quoted']}, regexes={'_NPATH_IDENTIFIER_RE': 're_npath_ident'},
                    state=['segments','buffer','in_quotes','quoted_segment','escape'], ret_ty='(list (str * bool))',
                    coqtypes={'segments': 'list (str * bool)', 'buffer': 'str'})
+    print(out); print('(* raise sites: %d *)' % nraise)
+    print('(* GENERATED from cli/manipulations.py:_split_scope_npath (idiom A with break) *)')
+    print('Definition STATE__split_scope_npath : Type := nat.')
+    out, nraise = gen_fold(repo + '/nix_manipulator/cli/manipulations.py', '_split_scope_npath',
+                   params={'npath': 'str'}, types={'npath':'str','ch':'char','depth':'int','remainder':'str'},
+                   ctors={}, regexes={}, state=['depth'], ret_ty='(option (nat * str))', coqtypes={}, ret_some=True)
     print(out); print('(* raise sites: %d *)' % nraise)
     print('(* GENERATED from expressions/binding.py:_split_attrpath (idiom B over a state tuple) *)')
     print('Definition STATE__split_attrpath : Type := (list str * str * bool * bool * nat * bool * bool)%type.')
